@@ -739,6 +739,8 @@ sqf::runtime::runtime::result sqf::runtime::runtime::execute(sqf::runtime::runti
     auto opt_set = sqf_parser.parse(*this, view, { std::string("__evaluate_expression__.sqf"), {} });
     if (opt_set.has_value())
     {
+        // scripts the expression starts (spawn, execVM) do not outlive the evaluation: they belong to no run
+        auto contexts_before = m_contexts;
         auto eval_context = context_create().lock();
         frame f(default_value_scope(), opt_set.value());
         eval_context->push_frame(f);
@@ -762,6 +764,11 @@ sqf::runtime::runtime::result sqf::runtime::runtime::execute(sqf::runtime::runti
                 m_state = runtime::state::running;
                 auto res = execute_do(*this, 1);
                 m_state = oldstate;
+                if (res == result::runtime_error)
+                { // an unhandled error ends the evaluation: no later statement of the expression runs
+                    finished = false;
+                    break;
+                }
                 if (res == result::ok && (m_is_exit_requested || eval_context->suspended()))
                 { // nothing more will get executed (maximum runtime reached, exit requested, suspended): give up instead of spinning
                     finished = false;
@@ -774,8 +781,10 @@ sqf::runtime::runtime::result sqf::runtime::runtime::execute(sqf::runtime::runti
             m_evaluate_halt = false;
         }
         m_context_active = old_active;
-        // the expression is no script of the scheduler
-        m_contexts.erase(std::remove(m_contexts.begin(), m_contexts.end(), eval_context), m_contexts.end());
+        // the expression is no script of the scheduler, nor is anything it started
+        m_contexts.erase(std::remove_if(m_contexts.begin(), m_contexts.end(), [&](const std::shared_ptr<context>& c) {
+            return std::find(contexts_before.begin(), contexts_before.end(), c) == contexts_before.end();
+        }), m_contexts.end());
         if (m_runtime_error || !finished)
         {
             m_evaluate_halt = false;
